@@ -59,3 +59,21 @@ func (i *interpreter) freezeWalk(v value, depth int) {
 		}
 	}
 }
+
+// thaw un-freezes the object x points to (its own fields, not what they refer to): used for the bookkeeping of
+// environment models (the API-client model's call log) that sit inside a frozen object graph.
+func (i *interpreter) thaw(v value) {
+	if it, ok := v.(iface); ok {
+		v = it.v
+	}
+	p, ok := v.(*value)
+	if !ok || p == nil {
+		return
+	}
+	delete(i.frozen, p)
+	if st, ok := (*p).(structure); ok {
+		for k := range st {
+			delete(i.frozen, &st[k])
+		}
+	}
+}
